@@ -278,10 +278,44 @@ func c17Start(builtin bool, t *atree) *c17Server {
 	}
 	cch, sch := channel.Direct()
 	// a configured start time (a rarely used option): what rpc.serverInfo reports, in every run of the server
-	s.srv = jrpc2.NewServer(top, &jrpc2.ServerOptions{DisableBuiltin: !builtin, Concurrency: 1, StartTime: c17StartTime})
+	opts := &jrpc2.ServerOptions{DisableBuiltin: !builtin, Concurrency: 1, StartTime: c17StartTime}
+	if c17Starts++; c17Starts%2 == 0 {
+		// a server nested in a handler of another server (a gateway): its base context derives from the outer
+		// handler's context, which carries the OUTER server and request; handlers and assigner of this server
+		// still see THIS server and their own request
+		opts.NewContext = outerHandlerContext
+	}
+	s.srv = jrpc2.NewServer(top, opts)
 	s.srv.Start(sch)
 	s.cli = jrpc2.NewClient(cch, nil)
 	return s
+}
+
+var (
+	c17Starts    int
+	c17OuterOnce sync.Once
+	c17OuterCtx  context.Context
+)
+
+// outerHandlerContext returns the context a handler of another, outer server was given (detached from its
+// cancellation, as a gateway does for work that outlives the outer call).
+func outerHandlerContext() context.Context {
+	c17OuterOnce.Do(func() {
+		cch, sch := channel.Direct()
+		got := make(chan context.Context, 1)
+		srv := jrpc2.NewServer(handler.Map{"grab": func(ctx context.Context, _ *jrpc2.Request) (any, error) {
+			got <- context.WithoutCancel(ctx)
+			return nil, nil
+		}}, nil).Start(sch)
+		cli := jrpc2.NewClient(cch, nil)
+		if _, err := cli.Call(context.Background(), "grab", nil); err != nil {
+			fatal("outer server: %v", err)
+		}
+		c17OuterCtx = <-got
+		cli.Close()
+		srv.Wait()
+	})
+	return c17OuterCtx
 }
 
 var c17StartTime = time.Date(2001, 2, 3, 4, 5, 6, 0, time.UTC)
